@@ -19,6 +19,7 @@ type rwOp struct {
 	Op   string `json:"op"` // header | write | copy (io.Copy from a plain reader) | flush | before | read
 	Code int    `json:"code,omitempty"`
 	N    int    `json:"n,omitempty"`
+	Reg  bool   `json:"hook_registers_another,omitempty"` // before: the function, when it runs, registers one more function (which may or may not run; the ones registered earlier must still run exactly once, in reverse order)
 }
 
 type rwCase struct {
@@ -147,6 +148,9 @@ func (st *rwStepper) step() bool {
 			}
 			obs.hookSaw = append(obs.hookSaw, [2]int{id, bad})
 			obs.log = append(obs.log, fmt.Sprintf("hook%d", id))
+			if op.Reg {
+				x.Before(func(flamego.ResponseWriter) { obs.log = append(obs.log, fmt.Sprintf("late%d", id)) })
+			}
 		})
 	}
 	wr := 0
@@ -256,8 +260,20 @@ func rwVerdict(c *rwCase, obs *rwObs) string {
 	// --- trace predicates directly on the spy log
 	nH, sawH := 0, false
 	ran := map[string]int{}
+	var plain []string // without the functions registered while the functions were running: whether those run is not stated
 	for _, e := range obs.log {
+		if !strings.HasPrefix(e, "late") {
+			plain = append(plain, e)
+		}
 		switch {
+		case strings.HasPrefix(e, "late"):
+			ran[e]++
+			if sawH {
+				return e + " (registered by a running before-function) ran after the status line had reached the underlying writer"
+			}
+			if ran[e] > 1 {
+				return e + " ran more than once"
+			}
 		case strings.HasPrefix(e, "H"):
 			nH++
 			sawH = true
@@ -283,7 +299,7 @@ func rwVerdict(c *rwCase, obs *rwObs) string {
 		return fmt.Sprintf("the underlying writer received %d status lines", nH)
 	}
 	for h, n := range ran {
-		if n != 1 {
+		if n != 1 && !strings.HasPrefix(h, "late") {
 			return fmt.Sprintf("%s ran %d times", h, n)
 		}
 	}
@@ -292,7 +308,7 @@ func rwVerdict(c *rwCase, obs *rwObs) string {
 			return fmt.Sprintf("hook%d observed Written()/Status() already set", hs[0])
 		}
 	}
-	if a, b := strings.Join(obs.log, " "), strings.Join(want, " "); a != b {
+	if a, b := strings.Join(plain, " "), strings.Join(want, " "); a != b {
 		return fmt.Sprintf("forwarded calls differ\n observed:  %s\n predicted: %s", a, b)
 	}
 	return ""
@@ -338,7 +354,7 @@ func genRWCase(rng *rand.Rand) *rwCase {
 		case 4:
 			c.Ops = append(c.Ops, rwOp{Op: "flush"})
 		case 5, 6:
-			c.Ops = append(c.Ops, rwOp{Op: "before"})
+			c.Ops = append(c.Ops, rwOp{Op: "before", Reg: rng.Intn(6) == 0})
 		default:
 			c.Ops = append(c.Ops, rwOp{Op: "read"})
 		}
@@ -429,6 +445,9 @@ func judgeRW(w *core.W, c *rwCase) {
 		case "before":
 			if first == "" {
 				hooksBefore++
+				if op.Reg {
+					w.Count("hook-registers-another-before-first-write")
+				}
 			}
 		}
 	}
@@ -451,7 +470,7 @@ func judgeRW(w *core.W, c *rwCase) {
 }
 
 func runC13(r *core.Run) {
-	r.Rule("random operation sequences (0-12) over WriteHeader(100..599), Write(0..64 bytes), Flush, Before(fn) (registered before and after the first write), reads; all nine methods (HEAD over-represented); underlying writer with/without Flusher; fault injection: the k-th underlying Write is short, fails, or both; 1/5 of sequences run inside a handler on Context.ResponseWriter(). Oracle: 20-line state machine predicting every forwarded call, every Status/Size/Written reading and every Write result, plus predicates on the spy log (one status line, first; no body for HEAD; hooks once, reverse order, before the status line, seeing Written()==false). non-trivial = distinct sequences whose first status-sending op is not WriteHeader, or with >=2 hooks before it, or a second WriteHeader, or HEAD with a body write, or a fired fault")
+	r.Rule("random operation sequences (0-12) over WriteHeader(100..599), Write(0..64 bytes), Flush, Before(fn) (registered before and after the first write; one in six functions registers another function while it runs), reads; all nine methods (HEAD over-represented); underlying writer with/without Flusher; fault injection: the k-th underlying Write is short, fails, or both; 1/5 of sequences run inside a handler on Context.ResponseWriter(). Oracle: 20-line state machine predicting every forwarded call, every Status/Size/Written reading and every Write result, plus predicates on the spy log (one status line, first; no body for HEAD; hooks once, reverse order, before the status line, seeing Written()==false). non-trivial = distinct sequences whose first status-sending op is not WriteHeader, or with >=2 hooks before it, or a second WriteHeader, or HEAD with a body write, or a fired fault")
 	r.Assume("before-functions only record, read accessors and do not re-enter Write/WriteHeader (that deadlocks on sync.Once by Go's documented semantics)")
 	c13Canaries(r)
 	n := r.N(300000, 20000000)
@@ -466,7 +485,7 @@ func runC13(r *core.Run) {
 			r.GateCounter("first-trigger:"+f+"/"+h, 100)
 		}
 	}
-	for _, k := range []string{"fault-fired:short", "fault-fired:err", "fault-fired:shorterr", "via:handler", "via:direct", "interleaved-writers"} {
+	for _, k := range []string{"fault-fired:short", "fault-fired:err", "fault-fired:shorterr", "via:handler", "via:direct", "interleaved-writers", "hook-registers-another-before-first-write"} {
 		r.GateCounter(k, 100)
 	}
 }
